@@ -79,3 +79,8 @@ spec fn tdiv(x: int, d: int) -> int {
 spec fn imin(a: int, b: int) -> int {
     if a <= b { a } else { b }
 }
+
+// truncating (Rust) remainder on mathematical integers, d > 0
+spec fn trem(x: int, d: int) -> int {
+    x - d * tdiv(x, d)
+}
